@@ -24,6 +24,7 @@ var (
 func checkC09(c *chk.Ctx) {
 	h := newH(c)
 	c.Decided = []string{
+		"R09n recovery declares the log empty only when it has a single segment",
 		"R09m a read-only segment that is taken out of the group's index of segments is also taken out of its cache of open segments (a stale cache entry would be served for offsets that later belong to another segment)",
 		"R09l TruncateLog decides what to cut from the appended end of the log: none of its branch conditions reads the synced offset (entries appended but not yet synced have to go too)",
 		"R09a an entry is appended to a segment only after the contiguity check of its offset (shared with C08)",
@@ -53,6 +54,7 @@ func checkC09(c *chk.Ctx) {
 	ruleSyncCompletionsCovered(h, "R09k")
 	ruleR09l(h)
 	ruleR09m(h)
+	ruleRecoveredFirstOffset(h, "R09n")
 }
 
 // mayBeNil: the (resolved) error operand of a return is not provably non-nil.
